@@ -202,3 +202,23 @@ func report(t *testing.T, st *vstat.Stats, sub string, v *viol, plan any) bool {
 	}
 	return false
 }
+
+// awkwardTexts: valid texts (valid UTF-8, valid JSON strings) that a name or identifier may be and that trip code which
+// confuses bytes with characters, pads or cuts to a width, builds paths or formats from them.
+var awkwardTexts = []string{
+	"Договор_поставки_оборудования_и_материалов_2026.pdf", // 51 characters, 95 bytes
+	strings.Repeat("名", 20),  // 20 characters, 60 bytes
+	strings.Repeat("é", 41),  // 41 characters, 82 bytes
+	strings.Repeat("ж", 127), // 254 bytes
+	strings.Repeat("𝔘", 11),  // 4-byte characters
+	strings.Repeat("a", 255),
+	"👩‍👩‍👧‍👦 family album.pdf",
+	"a\u0301\u0301\u0301 combining marks.txt",
+	"\u202Eevil.txt",
+	"%s%d%n%x %!v(MISSING)",
+	"line\nbreak\r\n.txt",
+	"nul\x00byte",
+	" leading and trailing ",
+	"..",
+	"ﬀ ligature İstanbul ǅ titlecase", // case mapping changes the length
+}
